@@ -35,6 +35,7 @@ func runC05(c *Ctx) {
 	r.Doc("P1", "top-up: exact deficit, strict rejection, true iff total == vacants", 2)
 	r.Doc("P2", "strategic = divider(all registered priorities sorted, HandlersQuantity) into an empty map; v1: refreshed after every change of the set", 4)
 	r.Doc("D2", "lists handed to the divider are sorted and duplicate-free", 8)
+	r.Doc("P3", "the second phase hands out the unspent allotment of the round, measured before anything changes the map", 2)
 	for _, p := range []*Prog{c.V1, c.V2} {
 		pr, err := resolvePrio(p)
 		if err != nil {
@@ -48,6 +49,53 @@ func runC05(c *Ctx) {
 		checkB5(c, pr, true)
 		checkP2(c, pr)
 		checkD2(c, pr)
+		// P3: what the second phase hands out is the unspent allotment of this round (releases that
+		// arrive during the round wait for the next round's top-up)
+		subp := &Ctx{V1: c.V1, V2: c.V2, Tier: c.Tier, R: NewReport("tmp", c.Tier)}
+		checkN3(subp, pr)
+		for _, o := range subp.R.Obls {
+			if strings.Contains(o.Key, "#remainder") {
+				c.R.Check(o.OK, "P3", strings.TrimPrefix(o.Key, "N3@"), o.Site, o.Detail, o.Detail)
+			}
+		}
+		checkP2c(c, pr)
+	}
+}
+
+// checkP2c (v1): removing an input also removes its key from the registered list.
+func checkP2c(c *Ctx, pr *prioRoles) {
+	if !pr.v1 {
+		return
+	}
+	p := pr.p
+	for _, fn := range pr.rt.Funcs {
+		for _, b := range fn.Blocks {
+			for _, in := range b.Instrs {
+				call, ok := in.(*ssa.Call)
+				if !ok {
+					continue
+				}
+				bi, isB := call.Call.Value.(*ssa.Builtin)
+				if !isB || bi.Name() != "delete" || !p.isFieldLoad(call.Call.Args[0], "inputs") {
+					continue
+				}
+				key := call.Call.Args[1]
+				okRem := false
+				for _, b2 := range fn.Blocks {
+					for _, in2 := range b2.Instrs {
+						st, isSt := fieldStore(in2, "priorities")
+						if !isSt {
+							continue
+						}
+						if c2, isC := st.Val.(*ssa.Call); isC && p.IsProduct(p.Callee(c2)) && len(c2.Call.Args) == 2 &&
+							p.isFieldLoad(c2.Call.Args[0], "priorities") && c2.Call.Args[1] == key {
+							okRem = true
+						}
+					}
+				}
+				c.R.Check(okRem, "P2", p.FnKey(fn)+"#unregister", p.InstrPos(call), "removed key leaves the registered list", "the input table entry is deleted but the priority stays in the registered list: the shares are still divided among the old set and the top-up keeps reserving handlers for a priority that has no input")
+			}
+		}
 	}
 }
 
@@ -244,6 +292,7 @@ func runC06(c *Ctx) {
 			r.Funcs[p.FnKey(fn)] = true
 		}
 		checkN1(c, pr)
+		checkN1b(c, pr)
 		checkN2(c, pr)
 		checkN3(c, pr)
 		subp := &Ctx{V1: c.V1, V2: c.V2, Tier: c.Tier, R: NewReport("tmp", c.Tier)}
@@ -326,6 +375,37 @@ func checkN1(c *Ctx, pr *prioRoles) {
 				}
 			}
 			c.R.Check(ok, "N1", key, rs.Pos(p), "ticker clause leaves after bounded ticks", why)
+		}
+	}
+}
+
+// checkN1b: the interrupter ticker keeps ticking while the scheduler runs.
+func checkN1b(c *Ctx, pr *prioRoles) {
+	p := pr.p
+	n := 0
+	for _, fn := range pr.rt.Funcs {
+		for _, b := range fn.Blocks {
+			for _, in := range b.Instrs {
+				call, ok := in.(ssa.CallInstruction)
+				if !ok {
+					continue
+				}
+				cal := p.Callee(call)
+				if cal == nil {
+					continue
+				}
+				name := p.funcDisplay(cal)
+				if name != "(*time.Ticker).Stop" && name != "(*time.Ticker).Reset" {
+					continue
+				}
+				if _, path, okp := p.Sym(call.Common().Args[0]).FieldPath(); !okp || path[len(path)-1] != "interrupter" {
+					continue
+				}
+				n++
+				_, isDefer := in.(*ssa.Defer)
+				c.R.Check(isDefer && fn == pr.rt.E.Entry && name == "(*time.Ticker).Stop", "N1", fmt.Sprintf("%s#interrupter.%d", p.FnKey(fn), n), p.InstrPos(in), "interrupter stopped only by a defer of the goroutine entry",
+					"the interrupter ticker is stopped or re-armed while the scheduler runs: the bounded-ticks exit of the unbuffered-input receive never fires and an empty open input blocks the round")
+			}
 		}
 	}
 }
@@ -731,6 +811,7 @@ func runC17(c *Ctx) {
 	c02registration(sub, p)
 	checkD2(sub, pr)
 	checkP2(sub, pr)
+	checkP2c(sub, pr)
 	for _, o := range sub.R.Obls {
 		if strings.Contains(o.Key, "v2:") {
 			continue
